@@ -424,6 +424,21 @@ fn apply(op: Op) {
             c.model.borrow_mut().buf_thr = a;
         },
         Code::FillStrong => op_fill_strong(a, b),
+        Code::FillBag => {
+            let id = var_id(a);
+            let target = STRONG_MAX - b as u32;
+            let h = c.vars[a as usize].borrow();
+            let cc = h.as_ref().unwrap();
+            let mut n = 0u32;
+            while cc.strong_count() < target {
+                let cl = cc.clone();
+                cc.bag.borrow_mut().push(cl);
+                n += 1;
+            }
+            let mut m = c.model.borrow_mut();
+            m.objs[id as usize].bag_self += n;
+            m.objs[id as usize].buffered = false;
+        },
         #[cfg(feature = "weak")]
         Code::FillWeak => op_fill_weak(a, b),
         Code::DropStash => {
@@ -1110,6 +1125,10 @@ fn walk(cc: &Cc<Node>, id: u8, w: &mut Walk, faults: u32) -> bool {
         v!("C20", "P-ptr", "object #{} moved: created at {:#x}, now dereferences to {:#x}", id, node.home.get(), p1);
         return false;
     }
+    if node.bag.try_borrow().map_or(0, |b| b.len()) as u32 != c.model.borrow().objs[id as usize].bag_self {
+        v!("C01", "P-live", "object #{} lost part of its traced bag", id);
+        return false;
+    }
     if node.fin_script.get() != mfin || node.drop_script.get() != mdrop {
         v!("C01", "P-live", "object #{} lost its field values", id);
         return false;
@@ -1719,6 +1738,7 @@ pub fn canonical_key(out: &mut Vec<u8>) {
             out.push(if ob.constructed && !ob.dropped { nm(ob.cells[s]) } else { 0xFE });
         }
         out.push(if ob.glue_done { 0xFE } else { wr(ob.wcell) });
+        out.extend_from_slice(&(ob.bag_self as u16).to_le_bytes());
         out.extend_from_slice(&(m.stash_strong[i] as u16).to_le_bytes());
         out.extend_from_slice(&(m.stash_weak[i] as u16).to_le_bytes());
         if ob.box_alive() {
@@ -1898,6 +1918,11 @@ pub fn enabled(s: &Summary, cfg: &LensCfg, out: &mut Vec<Op>) {
         if on(Code::FillStrong) && !s.stash {
             for k in 0..=cfg.sat_k {
                 out.push(Op::new(Code::FillStrong, a8, k, 0));
+            }
+        }
+        if on(Code::FillBag) && !s.stash && va.strong < STRONG_MAX - cfg.sat_k as u32 - 2 {
+            for k in 0..=cfg.sat_k {
+                out.push(Op::new(Code::FillBag, a8, k, 0));
             }
         }
         if on(Code::FillWeak) && !s.stash {
